@@ -213,7 +213,16 @@ def to_py(spec, v):
         return [to_py(spec[2], e) for e in v]
     if n == 'NBT':
         import pynbt          # the form the repository's own callers use
-        return pynbt.TAG_Compound(nbt.root_to_pynbt_dict(v))
+        root = pynbt.TAG_Compound(nbt.root_to_pynbt_dict(v))
+        if len(repr(v)) % 2:
+            # the natural way to fill such a field: the compound is taken
+            # out of a larger document (a registry, a cached codec), where
+            # pynbt has given it its key as name.  On the wire the root of a
+            # packet's NBT field is unnamed all the same
+            doc = pynbt.TAG_Compound({'element': root,
+                                      'other': pynbt.TAG_Int(1)})
+            root = doc['element']
+        return root
     if n == 'MBRecord':
         from minecraft.networking.packets.clientbound.play import \
             MultiBlockChangePacket as M
